@@ -14,13 +14,13 @@ def op(win, mss, ts, ver, hdr, syn):
     return "\t".join(["wmult", str(win), str(mss), str(ts), str(ver), str(hdr), str(syn)])
 
 
-def seg(r, ver, flags, mss, win, ts):
+def seg(r, ver, flags, mss, win, ts, ipopts=b""):
     opts = b"\x02\x04" + struct.pack("!H", mss)
     if ts is not None:
         opts += b"\x01\x01\x08\x0a" + struct.pack("!II", ts, 0)
     tcp = wiregen.tcp_header(r, flags=flags, opts=opts, payload=b"", seq=7, ack=0 if flags == 2 else 9, urp=0, win=win, res=0)
     if ver == 4:
-        return wiregen.ipv4(r, tcp, ipopts=b"", tos=0, ident=1, fl=2, ttl=64)
+        return wiregen.ipv4(r, tcp, ipopts=ipopts, tos=0, ident=1, fl=2, ttl=64)
     return wiregen.ipv6(r, tcp, tc=0, fl=0, hlim=64)
 
 
@@ -34,18 +34,19 @@ def api_level(ctx):
         mss = r.choice([100, 536, 1380, 1400, 1440, 1448, 1460, 99, 1412, r.randrange(100, 1600)])
         ts = r.choice([None, None, 0, 5])
         syn = r.choice([0, mss, mss, 1300, 1460, 12, 11, 536, r.randrange(1, 2000)])
-        hdr = (20 if ver == 4 else 40) + 20 + (4 if ts is None else 16)
+        ipopts = r.choice([b"", b"", b"\x94\x04\x00\x00", b"\x01" * 8]) if ver == 4 else b""
+        hdr = (20 + len(ipopts) if ver == 4 else 40) + 20 + (4 if ts is None else 16)
         divs = [mss, mss - 12, 1460, 1448, 1440, 1428, mss + 40, mss + hdr, mss + 60, 1500, syn, syn - 12]
         d = r.choice(divs)
         k = r.choice([1, 2, 4, 10, 44])
         win = d * k if 0 < d * k <= 65535 else r.randrange(65536)
-        b = seg(r, ver, flags, mss, win, ts)
+        b = seg(r, ver, flags, mss, win, ts, ipopts)
         wire.append(f"wire\t{ver}\t{b.hex()}\t{syn}")
         form = r.choice(["mss", "mss", "mtu"])
         pin = r.choice(["*", "*", str(mss)])
         layout = "mss" if ts is None else "mss,nop,nop,ts"
         quirks = ("df,id+" if ver == 4 else "") + ("" if flags == 2 or True else "")
-        sig = f"*:64:0:{pin}:{form}*{k},*:{layout}:{quirks}:0"
+        sig = f"*:64:{len(ipopts)}:{pin}:{form}*{k},*:{layout}:{quirks}:0"
         sec = "request" if flags == 2 else "response"
         db = f"[tcp:{sec}]\nlabel = s:unix:X:\nsig = {sig}\n"
         hist.append("histq\tL:" + hx(db) + f"\tT:{ver}:{b.hex()}:{syn}:35")
